@@ -24,6 +24,10 @@ Str_skip == <<32, 115, 107, 105, 112>>        \* " skip"
 Elem(open) == DS \o open \o DE \o <<120>> \o DS \o <<47>> \o RM \o DE \o <<NL>>
 ElemNamed(nm, open) == DS \o open \o DE \o <<120>> \o DS \o <<47>> \o nm \o DE \o <<NL>>
 
+\* the element <RM name='A'>w</RM> on lines of its own inside a wrapper element opened by `open` and closed by /nm
+Wrapped(open, nm) == DS \o open \o DE \o <<NL, 119, NL>> \o DS \o RM \o Str_name \o Q \o Pool[2] \o Q \o DE \o <<118>> \o DS \o <<47>> \o RM \o DE
+                     \o <<NL, 117, NL>> \o DS \o <<47>> \o nm \o DE \o <<NL>>
+
 RECURSIVE PoolElems(_)
 PoolElems(i) == IF i > Len(Pool) THEN <<>>
                 ELSE Elem(RM \o Str_name \o Q \o Pool[i] \o Q) \o PoolElems(i + 1)
@@ -51,6 +55,12 @@ ProbeDoc ==
   \o ElemNamed(<<120, 120>>, <<120, 120>> \o Str_name \o Q \o A \o Q)                 \* unregistered tag name
   \o ElemNamed(RM \o <<50>>, RM \o <<50>> \o Str_name \o Q \o A \o Q)                 \* registered name + suffix
   \o ElemNamed(TL, TL \o Str_name \o Q \o A \o Q)                                     \* other evaluator's tag
+  \* nesting contexts: the decision about an element does not depend on what encloses it (short of a removed parent)
+  \o Wrapped(RM \o Str_name \o Q \o A \o Q \o Str_skip, RM)                                \* inside a targeted element marked skip
+  \o Wrapped(RM \o Str_skip, RM)                                                           \* inside a skip element without a name
+  \o Wrapped(RM \o Str_name \o Q \o <<110, 111, 110, 101>> \o Q, RM)                         \* inside an untargeted element
+  \o Wrapped(<<120, 120>> \o Str_skip, <<120, 120>>)                                       \* inside an unregistered element marked skip
+  \o Wrapped(TL \o <<32, 116, 111, 61>> \o Q \o <<50, 57, 57, 57, 45, 48, 49, 45, 48, 49, 32, 48, 48, 58, 48, 48, 58, 48, 48>> \o Q \o Str_skip, TL)   \* inside an unexpired time-limited element marked skip
 
 RECURSIVE EvalOps(_)
 EvalOps(i) == IF i > Len(Pool) THEN <<>>
